@@ -48,6 +48,60 @@ static int congruent(uint64_t n, const uint64_t* a, const uint64_t* b, uint64_t*
   return 1;
 }
 
+// volume: a relation between the two operands of ONE butterfly (equal high words, a difference that just fails to wrap ...) has a
+// probability of 2^-20 .. 2^-30 per transform under random lanes - out of reach of a few thousand cases, within reach of millions
+// of tiny transforms: 2^22 round trips per case at n = 8 (fewer at 16 and 64) on uniformly random 64-bit lanes (and on lanes whose high
+// words are drawn from a set of four values, which makes equal high words common)
+static void volume_roundtrip_case(uint64_t n, int mode, unsigned rep) {
+  char key[96];
+  snprintf(key, sizeof key, "q120_ntt/intt_bb_avx2|volume of small round trips,%s", mode ? "int64 coefficients through the module" : "uniform lanes");
+  if (!case_begin(key, "n=%" PRIu64 " rep=%u", n, rep)) return;
+  rng_t* r = crng();
+  const unsigned lg = ilog2(n);
+  uint64_t* x = aligned_alloc(64, (n * 32 + 63) / 64 * 64);
+  uint64_t* x0 = malloc(n * 32);
+  const uint64_t iters = ((uint64_t)1 << 22) * 8 / (n < 8 ? 8 : n);
+  uint64_t bad = 0, at = 0;
+  int pk = 0;
+  if (mode) {
+    // through the module API: random int64 coefficients -> vec_znx_dft -> vec_znx_idft_tmp_a must return them (the lanes the
+    // transforms see are then the images of 64-bit integers, another distribution than uniform lanes)
+    const MODULE* M = get_module(n, NTT120, 1);
+    int64_t* a = malloc(n * 8);
+    __int128* bg = aligned_alloc(64, (n * 16 + 63) / 64 * 64);
+    for (uint64_t it = 0; it < iters / 2 && !bad; it++) {
+      for (uint64_t i = 0; i < n; i++) a[i] = (int64_t)rng_u64(r);
+      vec_znx_dft(M, (VEC_ZNX_DFT*)x, 1, a, 1, n);
+      vec_znx_idft_tmp_a(M, (VEC_ZNX_BIG*)bg, 1, (VEC_ZNX_DFT*)x, 1);
+      for (uint64_t i = 0; i < n; i++)
+        if (bg[i] != (__int128)a[i]) {
+          bad++;
+          viol("oracle", "round trip number %" PRIu64 " of a volume run through the NTT120 module: N=%" PRIu64 " coefficient %" PRIu64 ": idft(dft(a)) != a = %" PRId64, it, n, i, a[i]);
+          break;
+        }
+    }
+    free(a);
+    free(bg);
+  }
+  for (uint64_t it = 0; it < iters && !bad && !mode; it++) {
+    for (uint64_t i = 0; i < 4 * n; i++) {
+      const uint64_t w = rng_u64(r);
+      x0[i] = x[i] = w;
+    }
+    q120_ntt_bb_avx2(NTT[lg][it & 1], (q120b*)x);
+    q120_intt_bb_avx2(INTT[lg][it & 1], (q120b*)x);
+    if (!congruent(n, x, x0, &at, &pk)) {
+      bad++;
+      viol("oracle", "round trip number %" PRIu64 " of a volume run: n=%" PRIu64 " coefficient %" PRIu64 " prime %d: intt(ntt(x)) = %" PRIu64 " not congruent to x = %" PRIu64, it, n, at, pk, x[4 * at + pk], x0[4 * at + pk]);
+    }
+  }
+  cnt("volume_roundtrips", iters);
+  sample("%" PRIu64 " round trips at n=%" PRIu64 ", all congruent", iters, n);
+  free(x);
+  free(x0);
+  case_end(1);
+}
+
 static void transform_case(uint64_t n, int fam, int set, unsigned rep) {
   char key[96];
   snprintf(key, sizeof key, "q120_ntt/intt_bb_avx2|%s,%s", n <= 1024 ? "n<=1024(levels)" : "n>1024(levels+blocks)", q120_fam_name[fam]);
@@ -535,6 +589,10 @@ void run_C03(void) {
       sample("tables built by concurrent threads: %" PRIu64 " lanes congruent to the sequentially built ones", lanes);
       case_end(1);
     }
+  }
+  {
+    static const uint64_t VN[] = {8, 8, 16, 8, 64, 4};
+    for (unsigned rep = 0; rep < (G.thorough ? 96u : 12u); rep++) volume_roundtrip_case(VN[rep % ARRAY_LEN(VN)], (int)(rep & 1), rep);
   }
   free_tables();
   // modules / tables created, used and destroyed in random order, several alive at once
